@@ -451,6 +451,7 @@ func C04(r *ev.Run) {
 		r.Case(src, strings.Count(src, "\n") > 4)
 	}
 	r.Sample(map[string]interface{}{"source": recs[0].Src, "log": recs[0].Log, "result": recs[0].Res + " " + recs[0].Ty})
+	runDirected(r, "C04")
 	bad, ok := validateTrace(r, "Flow_Trace", "Flow_Trace.cfg", trace, 60*time.Minute)
 	if !ok {
 		return
